@@ -7,7 +7,7 @@ from common import Outcome, classify_exc
 
 FIELDS = ['id', 'name', 'resource', 'estimate', 'spent', 'start', 'end', 'predecessors', 'successors', 'parent', 'tag', 'Tag', 'nope', 'RESOURCE', 'milestone', 'children', 'wbs', 'clone']
 NAMES = ['short', None, 'a much longer task name than the rest', 'ünïcödé ✓', '', 'x' * 40, 'with  spaces']
-COLORS = ['94m', '96m', '93m', '95m', '91m', '97m', '92m']
+COLORS = ['94m', '96m', '93m', '95m', '91m', '97m', '92m', '1;94m', '38;5;208m', '1m', '0m']        # (also bold, 256-colour and one-digit codes: a colour code is any SGR parameter string)
 ANSI = re.compile(r'\x1b\[[^m]*m')
 
 
@@ -28,7 +28,7 @@ def random_case(prop, rng, tier):
     fields = rng.sample(FIELDS, k) if rng.random() < 0.8 else None
     theme = None
     if rng.random() < 0.4:
-        theme = {'level_colors': COLORS[:rng.randrange(0, 4)]}
+        theme = {'level_colors': rng.sample(COLORS, rng.randrange(0, 4))}
         if rng.random() < 0.5:
             theme['header_color'] = rng.choice(COLORS + [None])          # None = plain text
         if theme['level_colors'] and rng.random() < 0.3:
